@@ -51,7 +51,7 @@ theorem dry_run_plan_eq (cfg : Cfg) (flt : Faults) (scan : List SEntry) (dst : M
   unfold runF at hok ⊢
   simp only [dry_run_same_plan, hg] at hok ⊢
   by_cases hr : guardRefuses (wet cfg) (List.filter (fun x => x.act == Act.delete) (plan (wet cfg) scan dst)).length
-      (List.length dst) = true
+      (destCount dst) = true
   · simp only [hr, ↓reduceIte]
   · simp only [hr, Bool.false_eq_true, ↓reduceIte, List.reverse_eq_nil_iff] at hok ⊢
     rw [foldl_execTask_dry_events (dry cfg) flt rfl]
